@@ -367,6 +367,8 @@ impl Default for C32 {
 /// One composed kind / size conversion: where each position of the result comes from
 /// (`i >= 0`: the value's own element i; `-(j+1)`: the j-th extra element handed in). Every own or
 /// extra element that does not appear in `result` must be destroyed exactly once by the conversion.
+/// `KcSpec::result` entry: a fresh element the conversion itself creates with `T::zero()`
+pub const KC_ZERO: i8 = -100;
 pub struct KcSpec {
     pub name: &'static str,
     pub extras: usize,
